@@ -1,6 +1,6 @@
 """C16 - time-driven operators never act early, never reorder, and stop when told (DESIGN 6/C16)."""
 import json, os, shutil
-import vlib
+import vlib, parts_multi
 
 PID = 'C16'
 
@@ -48,6 +48,8 @@ def main(argv):
         rep.parts['drive-timed'] = dict(traces=total, per_operator=ops)
     finally:
         shutil.rmtree(d, ignore_errors=True)
+    # tick-driven forms (ThrottleWhen / SampleWhen / BufferWhen / WindowWhen over a ticker source): every interleaving of values and ticks (Multi.tla)
+    parts_multi.run_ticks(rep, PID, th)
     rep.cov['rule'] = ('seeded timelines (durations 2-13 ms; inter-arrival gaps of 0, d/4, d/2, about d, 4d/3, 2d; bursts; slow consumers; completion / error / none; unsubscription at random instants) '
                        'of Delay, DelayEach, Timeout, Interval, IntervalWithInitial, Timer, ThrottleTime, SampleTime, BufferWithTime, BufferWithTimeOrCount, recorded with monotonic microsecond '
                        'timestamps and validated by TLC against TimedTrace.tla, which asserts only lower bounds on time and order / count relations; every timeline is distinct')
@@ -56,6 +58,9 @@ def main(argv):
 
 
 def replay(path):
+    if path.endswith('.json'):
+        vlib.build_harness()
+        return parts_multi.replay_case(PID, path)
     v = vlib.validate_traces('TimedTrace', 'TimedTrace_x.cfg', path)
     for t, info in v['rejected'].items():
         print('VIOLATION property=%s replay=%s  # rejected at event %s: %s' % (PID, path, info.get('at'), json.dumps(info.get('event'))))
